@@ -25,6 +25,7 @@ func main() {
 	tags := flag.String("tags", "verif", "build tags")
 	goarch := flag.String("goarch", "", "GOARCH override")
 	dump := flag.String("dump", "", "debug: print normalised SSA of the named function")
+	genp := flag.Bool("genparams", false, "development: print the frozen parameter-name table")
 	flag.Parse()
 	if *evdir == "" {
 		*evdir = filepath.Join(*verif, "evidence")
@@ -38,6 +39,10 @@ func main() {
 	if err != nil {
 		fmt.Printf("UNDECIDED property=%s load failed: %v\n", *prop, err)
 		os.Exit(2)
+	}
+	if *genp {
+		genParamNames(p)
+		return
 	}
 	if *dump != "" {
 		an.Dump(p, *dump)
